@@ -78,9 +78,35 @@ PROPS.update({
         assumptions=PROV_ASSUME, fields=r"^(update|begin)\.res|^c\d+\.(infr|qinfr)|^g\.infrq"),
 })
 
+SLASH = dict(name="slash", quick=(6, 700), thorough=(28, 4000))
+CONSUMER = dict(name="consumer", quick=(6, 1500), thorough=(28, 8000))
+CONS_RULE = ("consumer stream: the real consumer keeper/AppModule (BeginBlock, EndBlock, OnRecvPacket, OnAcknowledgementPacket, SlashWithInfractionReason) over "
+             "scripted IBC keepers; VSC packets in batches of 0..k per block with slash acks, downtime/double-sign infractions at arbitrary heights, "
+             "handled/bounced/v1 acknowledgements, block times on / one nanosecond around the retry deadline; model-vs-implementation on every field")
+PROPS.update({
+    "C08": dict(streams=[SLASH, CONSUMER], rule=PROV_RULE + "; slash stream: downtime/double-sign packets for current, replaced, unknown and foreign keys, validators bonded/unbonded/jailed/tombstoned/opted out, all phases, ids 0 / issued / open / never issued; " + CONS_RULE,
+        assumptions=PROV_ASSUME + ["effects on staking/slashing are observed as the calls made to the scripted keepers"],
+        fields=r"^recvslash\.|^c\d+\.acks|^end\.sent|^cons\.(outstanding|queue|cslash|recv)"),
+    "C09": dict(streams=[SLASH, CONSUMER], rule=PROV_RULE + "; replenish period 8 s and fraction 0.3 so that the meter goes negative and is replenished often; " + CONS_RULE,
+        assumptions=PROV_ASSUME + ["A-POWER: total power below CometBFT's MaxTotalVotingPower"],
+        fields=r"^recvslash\.(ack|meter)|^begin\.(meter|cand)|^cons\.(record|queue|cend|cack)"),
+    "C12": dict(streams=[EPOCH, SLASH, CONSUMER], rule=PROV_RULE + "; " + CONS_RULE,
+        assumptions=PROV_ASSUME, fields=r"^end\.(vscid|vsc2h|sent)|^c\d+\.pend|^recvslash\.(ack|effects)|^cons\.(h2v|queue)"),
+    "C15": dict(streams=[EPOCH, LIFE], rule=PROV_RULE + "; validators crossing the M boundary in both directions, M changed by governance, jailing/unjailing",
+        assumptions=PROV_ASSUME + ["'highest voting power' is staking's power-index order (A-STK-SORT)", "the staking/genutil wrapper modules returning no validator updates are not exercised by the keeper-level harness"],
+        fields=r"^end\.(valupd|lastprov|res)"),
+})
+PROPS["C01"]["streams"] = [VALSET, CONSUMER, EPOCH]
+PROPS["C01"]["fields"] = r"^(diff|accum|cinit|applycc)\.|^cons\.(cc|pendch|cend|cinit)|^end\.(sent|valupd)|^c\d+\.(pend|valset)"
+PROPS["C01"]["rule"] += "; " + CONS_RULE
+
 NOT_APPLICABLE = {}
 
 LEVEL_TEXT = {
+    "C08": "Theorems: double-sign never punishes; effects = jailPlan (exactly the validator owning the key, existing, not unbonded/tombstoned/jailed, consumer's own downtime parameters, mapped infraction height); acks when declined; unknown id => error ack; consumer keeps one outstanding report per validator and clears on ack. Tie: one-step correspondence incl. the calls made to staking/slashing + Spec.Slash on the implementation.",
+    "C09": "Theorems: meter <= allowance after BeginBlock, at most one allowance per period, none before the candidate time, bounced iff negative, deduction before handling, WINDOW BOUND (jailed power <= start meter + accrued allowances + one validator's power, for every trace), consumer retry FSM (no send while waiting, none before the delay, bounce keeps the packet, handled removes it once). Tie: correspondence of meter/candidate/acks and of the consumer queue/record.",
+    "C12": "Theorems: id counter +1 per epoch and only then, open id mapped to height+1 every block, packets carry the current id, id 0 -> channel-open height, unknown id unresolvable; consumer: next height inherits, received id goes to height+1, slash packet carries the mapped id. Tie: correspondence + Spec.C12 / Spec.Cons on the implementation.",
+    "C15": "Theorems: recorded set = first min(M,n) bonded with provider keys and powers, size <= M, returned updates = diff, engine follows the recorded set (apply_diff). Tie: correspondence of lastprov/valupd; engine-side fold of all returned updates compared with the recorded set every block; staking views checked against the first M.",
     "C05": "Theorems: every rejection branch of AssignConsumerKey (other validator's provider key, default key, known or prunable key, inactive consumer), success maps key<->validator, frame for other consumers, creation blocked iff key known on an active consumer. Tie: one-step correspondence + key invariants I1-I4 monitored on every implementation state.",
     "C06": "Theorems: replaced key on a launched consumer keeps resolving and is scheduled at now+unbonding; pruning forgets exactly the keys whose deadline passed (prune_not_early / pruned_when_due); identity fallback. Tie: same streams, deadlines hit to the nanosecond.",
     "C11": "Theorems: stop schedules removal and keeps state, unlaunched consumers are skipped by queue/send, deletion clears every protocol field, removal not early, second deletion is a no-op. Tie: correspondence + stop/removal monitors.",
